@@ -7,6 +7,7 @@ import os
 import warnings
 
 from . import pyxfront
+from .normalize import canonicalise
 from .report import Undecided
 
 
@@ -140,10 +141,10 @@ class Model:
                     with warnings.catch_warnings():
                         warnings.simplefilter('ignore')
                         if kind == 'py':
-                            tree = ast.parse(src, filename=rel)
+                            tree = canonicalise(ast.parse(src, filename=rel))
                         else:
                             py, side = pyxfront.rewrite(src, rel)
-                            tree = _flatten_cdef(ast.parse(py, filename=rel))
+                            tree = canonicalise(_flatten_cdef(ast.parse(py, filename=rel)))
                 except (SyntaxError, pyxfront.PyxError, IndexError, ValueError, UnboundLocalError) as e:
                     raise Undecided(f'cannot parse {rel}: {type(e).__name__}: {e}')
                 m = Module(name, path, rel, kind, src, tree, side, is_pkg)
@@ -326,7 +327,7 @@ class Model:
 
     def snippet_func(self, src, name='control'):
         """FuncInfo for an embedded source fragment (positive controls for rules whose expected count is zero)."""
-        tree = ast.parse(src)
+        tree = canonicalise(ast.parse(src))
         mod = Module('<control>', '<control>', '<control>', 'py', src, tree)
         node = next(n for n in tree.body if isinstance(n, ast.FunctionDef))
         return FuncInfo(f'<control>.{node.name}', node, mod)
